@@ -60,6 +60,8 @@ def model_jobs(tier):
                                                 drop=["CONSTRAINT Emit"])),
         ("neg-preserve", "Collect", subst_cfg("CollectMC_links.cfg", "negp.cfg", CopyMode='"preserve"', MaxLen="2",
                                               drop=["CONSTRAINT Emit"])),
+        ("neg-order", "Collect", subst_cfg("CollectMC_deny.cfg", "nego.cfg", CollectOrder='"denylist-then-configs"',
+                                           DenyMax="0", drop=["CONSTRAINT Emit"])),
         ("neg-mangle32", "Collect", subst_cfg("CollectMC_deny.cfg", "negm.cfg", DestMode='"mangle32"', DenyMax="0",
                                               drop=["CONSTRAINT Emit"])),
     ]
@@ -67,7 +69,8 @@ def model_jobs(tier):
 
 
 EXPECT_NEG = {"neg-textual": "Contained", "neg-joined": "WritesUnderOut", "neg-unstripped": "FactoryWritesUnderOut",
-              "neg-mangle32": "FactoryWritesUnderOut", "neg-preserve": "WritesUnderOut"}
+              "neg-mangle32": "FactoryWritesUnderOut", "neg-preserve": "WritesUnderOut",
+              "neg-order": "DenyRespected"}
 
 
 def run_models(tier):
@@ -176,6 +179,7 @@ def run(prop, tier):
                      ("file names with a blank were candidate items", ds.get("blank_items", 0) > 0),
                      ("two specs persisted the same relative path", ps.get("pairs", 0) > 0),
                      ("symbolic spec names with digits were denied", ds.get("digit_specs", 0) > 0),
+                     ("the collect() entry point was driven", ds.get("collect_entry", 0) > 0),
                      ("items with regular-expression characters / deep path arguments were candidates",
                       ds.get("meta_items", 0) > 0 and ds.get("deep_items", 0) > 0)):
         if not ok:
@@ -230,8 +234,8 @@ def run(prop, tier):
                                           ["/".join(w) for w in ev["written"]], clause))
         else:
             bad = [" ".join(i["w"]) for i in ev["items"] if i["acc"]]
-            what = ("%s with deny files=%s commands=%s components=%s accessed %s (clause %s)"
-                    % (ev["factory"], [" ".join(w) for w in ev["files"]], [" ".join(w) for w in ev["commands"]],
+            what = ("%s (entry %s) with deny files=%s commands=%s components=%s accessed %s (clause %s)"
+                    % (ev["factory"] + (":" + ev["comp"] if ev["comp"] else ""), ev["entry"], [" ".join(w) for w in ev["files"]], [" ".join(w) for w in ev["commands"]],
                        ev["comps"], bad, clause))
         verdict.reject(lib.sig(prop, clause), what, dict(trace_id=rj["id"], event=ev, layout=t["lay"], rejected=rj,
                                                          case=denybyid.get(rj["id"])))
@@ -289,13 +293,14 @@ def selftest_traces(lay):
     pers = dict(ev="persist", via="direct", path=["d", "g"], saveas="none", seq="single", wtypes=["file", "file"],
                 dsts=[outloc + ["data", "d", "g"], outloc + ["meta_data", "x.json"]],
                 written=[outloc + ["data", "d", "g"], outloc + ["meta_data", "x.json"]])
-    col = dict(ev="collect", factory="foreach_execute", kind="text", comp="", files=[], commands=[["/bin/echo"], ["/bin/ech"]],
+    col = dict(ev="collect", factory="foreach_execute", kind="text", comp="", files=[], entry="apply", commands=[["/bin/echo"], ["/bin/ech"]],
                comps=[], items=[dict(t="cmd", w=["/bin/echo", "ab"], acc=False, cls="plain"),
                                 dict(t="cmd", w=["/bin/ls", "b"], acc=True, cls="plain")],
                stored=False)
     sym = dict(ev="collect", factory="spec", kind="text", comp="hosts", files=[["hosts"]], commands=[], comps=[],
+               entry="collect",
                items=[dict(t="file", w=["/etc/hosts"], acc=False, cls="plain")], stored=False)
-    blank = dict(ev="collect", factory="glob_file", kind="text", comp="", files=[["/x/my", "b"], ["/x/a"]], commands=[],
+    blank = dict(ev="collect", factory="glob_file", kind="text", comp="", entry="apply", files=[["/x/my", "b"], ["/x/a"]], commands=[],
                  comps=[], items=[dict(t="file", w=["/x/ab"], acc=True, cls="plain"),
                                   dict(t="file", w=["/x/my", "b"], acc=False, cls="blank")],
                  stored=True)
